@@ -170,6 +170,9 @@ def copy_case(ctx, seed):
     kind = ('memory', 'file', 's3')[seed % 3]
     prog = gen_program(rng, threads=False, nested=False, explicit_raise=0, raise_rate=0.0, max_in_decls=3, max_out_decls=2, try_steps=False, record_data=False,
                        handlers=False, properties=False)
+    for d in prog['inputs']:
+        if rng.random() < 0.4:
+            d['handler'] = 'wrap'      # an envelope handler whose prepared form still references the live result
     prog['params'] = {'copy': True}
     body = []
     for s in prog['body']:
@@ -195,7 +198,11 @@ def copy_case(ctx, seed):
             if k.startswith('input:') or k.endswith('.result'):
                 d = got.get_data(k)
                 if 'value' in d:
-                    recorded_values.append(d['value'])
+                    v = d['value']
+                    if isinstance(v, dict) and v.get('by') == 'in-handler' and 'wrapped' in v:
+                        v = v['wrapped']
+                        ctx.count('copy_on_interception_values_through_a_handler')
+                    recorded_values.append(v)
         snaps = [e['returned_snap'] for e in live.journal.bodies() if 'returned_snap' in e and e.get('call_n') is not None]
         ctx.case({'seed': seed, 'kind': kind, 'prog': describe(prog)}, nontrivial=bool(snaps))
         # every value recorded must equal the value some body returned at capture time (pre-mutation)
